@@ -1068,3 +1068,42 @@ Proof.
   rewrite (stringify_value_clean env (vt :: vr) _ Hv). cbn [bind aa_value st_of cs_repeaters].
   rewrite (value_toks_flat env reps vt vr Hv Hf). reflexivity.
 Qed.
+
+(* ---------------------------------------------------------------- the limit on a single repeater:
+   X*N with no repeater inside X and a budget M >= 1 yields exactly min(N, M) copies *)
+Lemma copies_b_min f fu :
+  (forall i b, 0 <= b -> f i b = (fu i, b)) ->
+  forall k i b, 1 <= b ->
+    copies_b f k i b =
+    (flat_map fu (nseq (Z.to_nat (Z.min (Z.of_nat k) b)) i), b - Z.min (Z.of_nat k) b).
+Proof.
+  intros Hf. induction k as [|k IH]; intros i b Hb.
+  - cbn [copies_b]. replace (Z.min (Z.of_nat 0) b) with 0 by lia. cbn [Z.to_nat nseq flat_map]. f_equal. lia.
+  - cbn [copies_b]. rewrite Hf by lia.
+    destruct (b - 1 <=? 0) eqn:E.
+    + apply Z.leb_le in E. assert (b = 1) by lia. subst b.
+      replace (Z.min (Z.of_nat (S k)) 1) with 1 by lia. change (Z.to_nat 1) with 1%nat. cbn [nseq flat_map].
+      rewrite app_nil_r. reflexivity.
+    + apply Z.leb_gt in E. rewrite IH by lia.
+      replace (Z.to_nat (Z.min (Z.of_nat (S k)) b)) with (S (Z.to_nat (Z.min (Z.of_nat k) (b - 1)))) by lia.
+      cbn [nseq flat_map]. f_equal. lia.
+Qed.
+
+Theorem single_repeater_limit env node r0 reps b :
+  node_rep node = Some r0 -> inner_total node = 0 -> 1 <= b ->
+  let n := written_count r0 in
+  let m := Z.min (Z.of_N n) b in
+  unroll_b env reps node b =
+  (flat_map (fun i => tag_copy node (mkRep n i false) (unroll env (mkRep n i false :: reps) (strip_rep node)))
+            (nseq (Z.to_nat m) 0%N),
+   b - m).
+Proof.
+  intros Hr Hin Hb n m. rewrite unroll_b_unfold, Hr. cbv zeta. fold n.
+  rewrite (copies_b_min _ (fun i => once_u env node (Some (mkRep n i false)) (mkRep n i false :: reps))).
+  - rewrite N_nat_Z. fold m. f_equal. apply flat_map_ext. intros i. apply copy_is_unit.
+  - intros i b' Hb'. rewrite once_b_enough.
+    + rewrite Hin. f_equal. lia.
+    + apply Forall_forall. intros c _ reps' b''. apply unroll_b_enough.
+    + rewrite Hin. exact Hb'.
+  - exact Hb.
+Qed.
